@@ -344,7 +344,7 @@ func (ck *Check) cacheTypestate(rule string) {
 		ck.lost(rule, "aws.NodeGroup.asg / autoscaling.Group.DesiredCapacity", "fields not found")
 		return
 	}
-	ck.floor(rule, "AWS mutation sites (terminate / set / attach)", len(ts.mutCalls), 4)
+	ck.floor(rule, "AWS mutation sites (terminate / set / attach)", len(ts.mutCalls), 3)
 	// fixpoint on retCached / readSites / readsIn / dirtyOut
 	for iter := 0; iter < 10; iter++ {
 		changed := false
@@ -1423,8 +1423,11 @@ func checkC19(ck *Check) {
 			ck.cond(dominatesInstr(cloud, k8sDel), "C19.R5", ck.P.siteKey(k8sDel)+"/order", ck.P.instrPos(k8sDel), funcID(td), "the cloud delete precedes the Kubernetes delete", "", "")
 		}
 	}
+	// R1 (continued): the pre-checks read a desired capacity that is fresh within the scan
+	ck.cacheTypestate("C19.R1")
 	// R6 propagation
 	ck.notInGroupPropagation("C19.R6")
+	ck.fatalErrorCreation("C19.R6")
 }
 
 // belongsShape: Belongs(node) ⇔ ∃ id ∈ Nodes(): id == node.Spec.ProviderID; Nodes() maps
@@ -1730,4 +1733,29 @@ func (ck *Check) propagates(rule, key string, fr *ssa.Function, ctx *Ctx, call *
 	}
 	_ = a
 	ck.cond(okAll, rule, key, ck.P.instrPos(call), funcID(fr), "whenever this call yields a non-nil error of type *NodeNotInNodeGroup the frame returns that error unchanged", "", strings.Join(why, "; "))
+}
+
+// fatalErrorCreation: values of dynamic type *NodeNotInNodeGroup enter an error interface only
+// in the AWS DeleteNodes membership branch, from a freshly allocated (non-nil) value. A helper
+// that converts a possibly-nil *NodeNotInNodeGroup into an error would make every error fatal
+// (typed-nil interface) — or none.
+func (ck *Check) fatalErrorCreation(rule string) {
+	a := ck.A
+	n := 0
+	for _, fn := range ck.P.Funcs {
+		for _, b := range fn.Blocks {
+			for _, in := range b.Instrs {
+				mi, ok := in.(*ssa.MakeInterface)
+				if !ok || !a.isPtrTo(mi.X.Type(), a.TNotInGroup) {
+					continue
+				}
+				n++
+				_, fresh := mi.X.(*ssa.Alloc)
+				okv := fresh && fn == a.AwsDelete
+				ck.cond(okv, rule, fmt.Sprintf("%s/not-in-group-creation#%d", funcID(fn), n), ck.P.instrPos(mi), funcID(fn), "a *NodeNotInNodeGroup error is created only by the AWS membership test, from a fresh non-nil value", mi.X.String(),
+					"a possibly-nil *NodeNotInNodeGroup is converted to an error: the interface is non-nil even when the pointer is nil, so ordinary errors are treated as the fatal not-in-group condition (or vice versa)")
+			}
+		}
+	}
+	ck.floor(rule, "creation sites of the not-in-group error", n, 1)
 }
